@@ -65,6 +65,7 @@ pub struct Model {
     pub leaks: Vec<i32>,
     pub next_tag: u64,
     pub clones: u64,
+    lie: i32,
 }
 
 /// tags of one run live in 0..TAG_SPACE_MAX (they wrap; the ledger is a multiset)
@@ -81,6 +82,7 @@ impl Model {
             leaks: vec![0; space],
             next_tag: 1,
             clones: 0,
+            lie: 0,
         }
     }
     pub fn tag_space(&self) -> usize {
@@ -197,6 +199,13 @@ impl Model {
     /// `caps`: capacities observed in the last snapshot (used only to keep
     /// spare-capacity writes inside the capacity).
     pub fn apply(&mut self, st: &Step, caps: [usize; 3]) -> Pred {
+        self.apply_with(st, caps, 0)
+    }
+
+    /// `lie`: planned misreport of the replacement iterator's length (fault F4), needed to
+    /// know whether completing a splice can panic.
+    pub fn apply_with(&mut self, st: &Step, caps: [usize; 3], lie: i32) -> Pred {
+        self.lie = lie;
         let slot = (st.slot % 3) as usize;
         let mut r = RStep::nop();
         r.op = st.op;
@@ -309,7 +318,8 @@ impl Model {
                 }
                 p.nontrivial = n > 0;
             }
-            Op::TypeProbe | Op::Nop => {
+            Op::TypeProbe => self.op_typeprobe(st, &mut p),
+            Op::Nop => {
                 p.r.op = Op::Nop;
             }
         }
@@ -704,7 +714,11 @@ impl Model {
         // a splice whose completion panics (capacity) must not be dropped by unwinding:
         // a second panic during unwinding aborts the process, which is Rust's rule and not
         // a property of the library. Item sinks that may panic are therefore disabled.
-        p.abort_risk = splice && !fits;
+        let fits_lie = match self.fixed_cap(slot) {
+            Some(c) => start + ((repl.len() as i64 + self.lie as i64).max(0) as usize) + tail.len() <= c,
+            None => true,
+        };
+        p.abort_risk = splice && (!fits || !fits_lie);
         let item_other_ok = other.is_some() && !(splice && repl_from_other) && !p.abort_risk;
 
         let mut f = 0usize;
@@ -1099,6 +1113,81 @@ impl Model {
                 self.died(mine);
                 p.ev.push(Ev::Val(mine));
                 p.ev.push(Ev::Val(theirs));
+            }
+        }
+    }
+
+    /// C04: a value of a distinct type with identical layout offered at a checked entry point.
+    fn op_typeprobe(&mut self, st: &Step, p: &mut Pred) {
+        let slot = p.r.slot;
+        let len = self.len(slot);
+        let mut kind = st.kind % TP_KINDS;
+        if kind == TP_SWAP && len == 0 {
+            kind = TP_PUSH_WRAPPER;
+        }
+        p.r.kind = kind;
+        p.r.via = VIA_ERASED;
+        p.r.form = st.form % 2;
+        p.nontrivial = true;
+        p.relax = self.relax_base(&[slot], &[]);
+        p.relax.prefix[slot] = len;
+        match kind {
+            TP_PUSH_WRAPPER | TP_PUSH_RAW => {
+                let t = self.fresh();
+                p.r.tags.push(t);
+                p.ev.push(Ev::Panic);
+            }
+            TP_INSERT_WRAPPER | TP_INSERT_RAW => {
+                let t = self.fresh();
+                p.r.tags.push(t);
+                p.r.i = idx(st.a, len + 1).min(len);
+                p.ev.push(Ev::Panic);
+            }
+            TP_PUSH_HANDLE => {
+                let t = self.fresh();
+                p.r.tags.push(t);
+                // the handle is dropped by unwinding: its vector loses the element
+                p.ev.push(Ev::Len(0));
+                p.ev.push(Ev::Panic);
+            }
+            TP_SPLICE => {
+                let (lo, hi, se) = self.range(st.form2(), st.a, st.b, len);
+                let (lo, hi, start) = match se {
+                    Some((s, _)) => (lo, hi, s),
+                    None => (Bnd::Unb, Bnd::Unb, 0),
+                };
+                p.r.form = if se.is_some() { st.form2() % 9 } else { 5 };
+                p.r.lo = lo;
+                p.r.hi = hi;
+                let n = 1 + (st.n % 4) as usize;
+                p.r.n = n;
+                p.r.j = (st.c % n as u64) as usize;
+                for _ in 0..n {
+                    let t = self.fresh();
+                    p.r.tags.push(t);
+                }
+                p.relax.prefix[slot] = start;
+                p.always_relaxed = true;
+                p.relax_kind = 10;
+                p.ev.push(Ev::Panic);
+                // hint for the strict part: only the head is promised
+                let lost: Vec<u64> = self.tags(slot)[start..].to_vec();
+                self.tags_mut(slot).truncate(start);
+                for t in lost {
+                    self.leak(t);
+                }
+            }
+            TP_SWAP => {
+                let t = self.fresh();
+                p.r.tags.push(t);
+                p.r.i = idx(st.a, len);
+                p.ev.push(Ev::Panic);
+            }
+            _ => {
+                let t = self.fresh();
+                p.r.tags.push(t);
+                p.r.i = idx(st.a, len.max(1));
+                p.ev.push(Ev::Bool(true));
             }
         }
     }
